@@ -95,6 +95,13 @@ func lonDiff(a, b float64) float64 {
 func c18Mercator(c *core.Case) {
 	r := c.R
 	n := 1 + r.Intn(10)
+	if r.P(0.0004) || (c.Tier == "thorough" && r.P(0.0004)) {
+		n = veryLongLen(r)
+		c.Tag("very-long-list")
+	} else if r.P(0.003) {
+		n = longLen(r)
+		c.Tag("long-list")
+	}
 	extreme := r.P(0.15) // altitudes up to +-2^25 m; otherwise within +-10 km (aircraft, terrain, sea floor)
 	pts, objs, ok := c18Points(c, n, func() pt {
 		if extreme {
